@@ -912,6 +912,26 @@ class World:
                 run.idmap[id(raw)] = "impl%s" % ms["impl"]
                 pool[ms["impl"]] = raw
             return raw
+        if kind == "prop_ext":
+            # a subclass extending a property of its base with a setter of its own: @Base.prop.setter
+            import inspect as _inspect
+
+            bp = None
+            for bname in ms["bases"]:
+                cand = _inspect.getattr_static(self.classes[bname], name, None)
+                if isinstance(cand, property):
+                    bp = cand
+                    break
+            if bp is None:
+                raise HarnessError("prop_ext without a base property")
+
+            def fset2(self, value):
+                run.body(self)
+
+            fset2.__name__ = name
+            fset2.__qualname__ = owner + ".set"
+            run.idmap[id(fset2)] = owner + ".set"
+            return bp.setter(self._decorate(fset2, owner + ".set", ms.get("setter") or {}, params=("self", "value")))
         if kind == "prop":
 
             def fget(self):
